@@ -12,7 +12,7 @@ from quantity import sum as quantity_sum
 import quantity.predefined as pre  # noqa: F401
 from quantity.money import Money  # noqa: F401
 
-from .. import cat, gen, iso, refdata
+from .. import cat, gen, iso, refdata, universe
 from ..model import F, HALF_MODES, MODES, exact, fs, mknum, round_to, selftest_rounding
 from ..runner import Part
 
@@ -191,10 +191,19 @@ def enum_iso(shard, nshards):
                 yield {"k": "iso", "code": code, "dflt": mode}
 
 
+@st.composite
+def gen_universe(draw):
+    """Generated universes (arbitrary rational quanta, quantized derived result types) under any default mode."""
+    case = draw(universe.gen_ops_case())
+    case["dflt"] = draw(gen.modes)
+    return case
+
+
 def parts(tier):
     big = tier == "thorough"
     return [Part("ops", "hyp", strategy=gen_case(), n=800000 if big else 50000),
-            Part("iso", "enum", enum=enum_iso, exhaustive=True, shards=16)]
+            Part("iso", "enum", enum=enum_iso, exhaustive=True, shards=16),
+            Part("universe", "hyp", strategy=gen_universe(), n=150000 if big else 6000, chunk=1500)]
 
 
 def _q(d):
@@ -248,6 +257,12 @@ def _expect(ctx, what, res, exact_in_unit, udesc_or_sym, mode, op, cls=None, gri
 
 def _run(case, ctx, mode):
     k = case["k"]
+    if k == "u_ops":
+        import functools
+        from . import c02
+        ctx.label(f"mode/{mode}")
+        universe.run_ops_case(case, ctx, functools.partial(c02.judge, mode=mode))
+        return
     ctx.label("cases")
     ctx.label(f"mode/{mode}")
     if k == "iso":
